@@ -26,6 +26,9 @@ type pollScn struct {
 	Descs   []pollDesc11 `json:"descs"`
 	Trigger bool         `json:"trigger,omitempty"`
 	Fill    int          `json:"fill,omitempty"` // idle descriptors registered in addition (event array growth)
+	// Early: one entry per additional actor that calls Trigger that many times while the loop is
+	// busy with everything else (coalesced wake-ups); the final Trigger must still wake the loop.
+	Early []int `json:"early,omitempty"`
 }
 
 type pollRec struct {
@@ -235,6 +238,15 @@ func runPoll(t *rapid.T, s pollScn, replay []vs.Step) *pollOutcome {
 			}
 		})
 	}
+	for i, n := range s.Early {
+		n := n
+		w.s.Go(fmt.Sprintf("trig%d", i), false, func() {
+			for j := 0; j < n; j++ {
+				vs.Yield(-93)
+				p.Trigger()
+			}
+		})
+	}
 	parked, livelock := w.run(120000)
 	o.livelock = livelock
 	for _, a := range parked {
@@ -379,6 +391,12 @@ func judgePoll(s pollScn, o *pollOutcome) (sig, msg string) {
 
 func genPollScn(t *rapid.T) pollScn {
 	s := pollScn{Trigger: rapid.Bool().Draw(t, "trigger")}
+	if rapid.IntRange(0, 2).Draw(t, "early") == 0 {
+		for i, n := 0, rapid.IntRange(1, 3).Draw(t, "nearly"); i < n; i++ {
+			s.Early = append(s.Early, rapid.IntRange(1, 3).Draw(t, "ntrig"))
+		}
+		s.Trigger = true
+	}
 	if rapid.IntRange(0, 19).Draw(t, "growth") == 0 {
 		s.Fill = rapid.IntRange(120, 140).Draw(t, "fill")
 	}
@@ -463,6 +481,9 @@ func TestVerifC11(t *testing.T) {
 		}
 		if s.Fill > 0 {
 			st.class("event-array-growth")
+		}
+		if len(s.Early) > 0 {
+			st.class("concurrent-triggers")
 		}
 		ends, both := 0, false
 		for i, d := range s.Descs {
